@@ -9,9 +9,12 @@
 package edt
 
 import (
+	"fmt"
 	"go/constant"
+	"hash/fnv"
 	"sort"
 	"strings"
+	"sync/atomic"
 )
 
 // Term is an uninterpreted term.
@@ -82,9 +85,26 @@ func (t *Term) String() string {
 			s = t.Op + "(" + strings.Join(parts, ", ") + ")"
 		}
 	}
+	if len(s) > MaxTermString {
+		// a term that large is arithmetic the walker was not meant to follow (rendered
+		// as a tree, shared sub-terms multiply): keep a digest so that memory stays
+		// bounded, and let the walk report that it gave up
+		h := fnv.New64a()
+		h.Write([]byte(s))
+		s = fmt.Sprintf("⟪%s…#%x len=%d⟫", t.Op, h.Sum64(), len(s))
+		atomic.AddInt64(&termOverflows, 1)
+	}
 	t.s = s
 	return s
 }
+
+// MaxTermString bounds the rendered size of one term.
+const MaxTermString = 1 << 18
+
+var termOverflows int64
+
+// TermOverflows counts the terms cut at MaxTermString so far.
+func TermOverflows() int64 { return atomic.LoadInt64(&termOverflows) }
 
 func isInfix(op string) bool {
 	switch op {
